@@ -6,7 +6,7 @@
 From Coq Require Import ZArith List Bool Arith Permutation.
 Import ListNotations.
 From Verif Require Import Lib.Corr Lib.Hashring_Ketama Gen.C21 Model.C21 Proofs.C21.
-From Verif Require Model.C18 Proofs.C18_Order.
+From Verif Require Import Lib.Hashring_Answers Lib.Hashring_Order.
 Close Scope Z_scope.
 
 (* Stable, cached or not: for ANY eviction policy (the cache may drop any
@@ -69,7 +69,7 @@ Print Assumptions C21_shard_size_documented.
 Theorem C21_replicas_inside_shard : forall (nodes : list nat) sub_eps rf v a,
   length sub_eps = length nodes ->
   sections_of 0 sub_eps <> [] ->
-  Model.C18.ketama_answers sub_eps rf v = Some a ->
+  ketama_answers sub_eps rf v = Some a ->
   length a = rf /\
   (forall i, In i a -> In (nth i nodes 0) nodes) /\
   (NoDup nodes -> NoDup (map (fun i => nth i nodes 0) a)).
@@ -85,9 +85,9 @@ Theorem C21_zone_iteration_order_irrelevant : forall sub_eps perm,
   NoDup (map s_hash (sections_of 0 sub_eps)) ->
   forall rf v, sections_of 0 sub_eps <> [] ->
   option_map (map (fun i => nth i perm 0))
-    (Model.C18.ketama_answers (Model.C18.permute (0%Z, []) sub_eps perm) rf v)
-  = Model.C18.ketama_answers sub_eps rf v.
-Proof. exact Proofs.C18_Order.ketama_answers_perm. Qed.
+    (ketama_answers (permute (0%Z, []) sub_eps perm) rf v)
+  = ketama_answers sub_eps rf v.
+Proof. exact ketama_answers_perm. Qed.
 Print Assumptions C21_zone_iteration_order_irrelevant.
 
 (* Tie T: the comparison handed to sort.Search in getTenantShard, read from the
